@@ -298,7 +298,34 @@ func driveMerge(t *Tracer, r Rng, n int) {
 	}
 }
 
+// driveHashTwins: lists containing two different IDs that collide under a common 32-bit string hash
+func driveHashTwins(t *Tracer, r Rng, k int) {
+	sp, ext := hashTwins()
+	w := Win{Abs: true}
+	for i := 0; i < k; i++ {
+		tw := sp[r.Intn(len(sp))]
+		if r.Chance(0.5) {
+			tw.A, tw.B = tw.B, tw.A
+		}
+		// the second twin is the only voxel the probe meets
+		probe := tw.B
+		if r.Chance(0.5) {
+			probe = ID{H: tw.B.H + 1, X: tw.B.X*2 + r.In(0, 1), Y: tw.B.Y*2 + r.In(0, 1), V: tw.B.V + 1, F: tw.B.F*2 + r.In(0, 1)}
+		}
+		evOverlapSp(t, w, []ID{tw.A, tw.B}, []ID{probe}, true)
+		te := ext[r.Intn(len(ext))]
+		evOverlapExt(t, w, []ID{te.A, te.B}, []ID{te.B}, true)
+		evChangeZoomExt(t, w, []ID{te.A, te.B}, te.A.H, te.A.V)
+		evChangeZoomSp(t, w, []ID{tw.A, tw.B}, tw.A.H)
+		evMergeExt(t, w, []ID{te.A, te.B}, te.A.H, te.A.V)
+		evNLayer(t, w, []ID{te.A, te.B}, 0, 1)
+	}
+}
+
 func driveOverlap(t *Tracer, r Rng, n int) {
+	if n >= 100 {
+		driveHashTwins(t, r, 12)
+	}
 	for i := 0; i < n; i++ {
 		switch r.Intn(4) {
 		case 0, 1:
